@@ -771,6 +771,27 @@ struct Rec : Base
     }
 };
 
+// TangentBundleSpaceInformation whose three-argument checkMotion delegates to the library's and only *remembers* (for the
+// attribution of planner path vertices, F460) the states it handed back in lastValid.first that fail the constraint.
+static std::set<std::vector<double>> g_lvBad;
+struct RecTBSI : ob::TangentBundleSpaceInformation
+{
+    using ob::TangentBundleSpaceInformation::TangentBundleSpaceInformation;
+    using ob::TangentBundleSpaceInformation::checkMotion;
+    bool checkMotion(const ob::State *s1, const ob::State *s2, std::pair<ob::State *, double> &lastValid) const override
+    {
+        bool r = ob::TangentBundleSpaceInformation::checkMotion(s1, s2, lastValid);
+        if (!r && lastValid.first != nullptr && !g_rec)
+        {
+            const auto &x = *lastValid.first->as<ob::ConstrainedStateSpace::StateType>();
+            auto con = stateSpace_->as<ob::ConstrainedStateSpace>()->getConstraint();
+            if (!con->isSatisfied(lastValid.first))
+                g_lvBad.insert(std::vector<double>(x.data(), x.data() + x.size()));
+        }
+        return r;
+    }
+};
+
 // ------------------------------------------------------------------------------------------ main
 static std::map<std::string, std::string> kv(const std::vector<std::string> &t, size_t from)
 {
@@ -865,7 +886,7 @@ int main()
     else
     {
         css = std::make_shared<Rec<ob::TangentBundleStateSpace>>(rv, con);
-        csi = std::make_shared<ob::TangentBundleSpaceInformation>(css);
+        csi = std::make_shared<RecTBSI>(css);
     }
     css->setDelta(delta);
     css->setLambda(lambda);
@@ -1210,6 +1231,7 @@ int main()
             else if (op == "plan" && t.size() == 3 + 2 * n)
             {
                 g_rec = false;
+                g_lvBad.clear();
                 std::string pn = t[1];
                 auto ev = vp::parseNat(t[2]);
                 if (!ev)
@@ -1259,6 +1281,16 @@ int main()
                 if (path)
                 {
                     auto *pg = path->as<og::PathGeometric>();
+                    // path vertices that are bit-identical to an off-manifold state TangentBundleSpaceInformation::checkMotion
+                    // handed back as lastValid.first during this run
+                    std::string lv;
+                    for (size_t j = 0; j < pg->getStateCount(); ++j)
+                    {
+                        const auto &x = *pg->getState(j)->as<ob::ConstrainedStateSpace::StateType>();
+                        if (g_lvBad.count(std::vector<double>(x.data(), x.data() + x.size())))
+                            lv += (lv.empty() ? "" : ",") + std::to_string(j);
+                    }
+                    o += " lvbad=" + (lv.empty() ? std::string("none") : lv);
                     o += " exact=" + std::to_string((int)!pdef->hasApproximateSolution()) + " k=" +
                          std::to_string(pg->getStateCount());
                     for (size_t j = 0; j < pg->getStateCount(); ++j)
